@@ -2,7 +2,7 @@
 import ast, z3, operator
 from .ty import *
 from .engine import *
-from .engine import _Return, _Break, _Continue, _mangle_ty
+from .engine import _Return, _Break, _Continue, _mangle_ty, MUTATORS
 from .registry import SPEC, CLASSES, CONTRACTS, INLINE, LEMMAS
 from . import speclib as L
 
@@ -762,6 +762,15 @@ def call(E, e, fr):
             cd = E.cell(v)[1]
             ts = [E.spec_bool(i, {"self": v}) for cdx in E.mro(cd) for i in cdx.invariant]
             return SV(z3.And(*ts) if ts else z3.BoolVal(True), TBool)
+        if f.id == "dmap":
+            v = E.eval(e.args[0], fr)
+            if isinstance(v, Ref) and E.cell(v)[0] == "pydict" and not E.cell(v)[1]:
+                raise Unsupported("dmap of an untyped empty dict")
+            return E.cell(v)[1] if isinstance(v, Ref) else v
+        if f.id == "dkeys":
+            v = E.eval(e.args[0], fr)
+            d = E.cell(v)[1] if isinstance(v, Ref) else v
+            return SV(E.dkeys(d), TList(d.ty.key))
         if f.id == "use":
             for a in e.args:
                 E.uses.add(a.id if isinstance(a, ast.Name) else a.value)
@@ -774,6 +783,17 @@ def call(E, e, fr):
                 selfv = ff.env.get("self", ff.env.get("cls"))
                 break
         return ("super", cls, selfv)
+    if isinstance(f, ast.Attribute) and f.attr in MUTATORS and isinstance(f.value, ast.Subscript) and not E.spec_mode:
+        base = E.eval(f.value.value, fr)
+        if isinstance(base, Ref) and E.cell(base)[0] in ("dict", "seq"):
+            # mutation through a subscript of a value container: read, mutate a temporary, write back
+            idx = E.eval_index(f.value.slice, fr)
+            cur = get_subscript(E, base, idx, f.value, fr)
+            tmp = cur if isinstance(cur, Ref) else E.new_symlist(cur)
+            args, kwargs = eval_args(E, e, fr)
+            r = call_method(E, tmp, f.attr, args, kwargs, fr, e)
+            set_subscript(E, base, idx, E.to_sv(tmp), f.value, fr)
+            return r
     fv = E.eval(f, fr)
     args, kwargs = eval_args(E, e, fr)
     return apply(E, fv, args, kwargs, fr, e)
@@ -788,10 +808,32 @@ def eval_old(E, node, fr):
     f2 = Frame(fr.key, fr.module, fr.clsnode, None, dict(env))
     E.frames.append(f2)
     try:
-        return E.eval(node, f2)
+        r = E.eval(node, f2)
+        oldheap = E.heap
     finally:
         E.frames.pop()
         E.heap = saved
+    return _snapshot(E, r, oldheap, {})
+
+
+def _snapshot(E, v, oldheap, memo):
+    """copy the part of the pre-state heap a value refers to into fresh cells of the current heap"""
+    if isinstance(v, Ref):
+        if v.cid in memo:
+            return memo[v.cid]
+        c = oldheap[v.cid]
+        nr = E.alloc(c)
+        memo[v.cid] = nr
+        if c[0] == "obj":
+            E.setcell(nr, ("obj", c[1], {f: _snapshot(E, x, oldheap, memo) for f, x in c[2].items()}))
+        elif c[0] == "pylist":
+            E.setcell(nr, ("pylist", [_snapshot(E, x, oldheap, memo) for x in c[1]]))
+        elif c[0] == "pydict":
+            E.setcell(nr, ("pydict", {k: _snapshot(E, x, oldheap, memo) for k, x in c[1].items()}))
+        return nr
+    if isinstance(v, tuple):
+        return tuple(_snapshot(E, x, oldheap, memo) for x in v)
+    return v
 
 
 def quantify(E, which, gen, fr):
@@ -991,6 +1033,13 @@ def call_contract(E, c, key, fnode, mod, clsnode, args, kwargs, fr, node):
     for p, ty in c.params.items():
         if p in env:
             env[p] = coerce(E, env[p], ty, key, p)
+    for g in c.ghost:
+        if g in fr.env:
+            env[g] = fr.env[g]
+        elif E.frames and g in E.frames[0].env:
+            env[g] = E.frames[0].env[g]
+        else:
+            raise Unsupported("ghost argument %s of %s is not in scope at the call (line %d)" % (g, key, line))
     pre_heap = dict(E.heap)
     pre_env = dict(env)
     E.old_stack.append((pre_env, pre_heap))
@@ -1014,6 +1063,11 @@ def call_contract(E, c, key, fnode, mod, clsnode, args, kwargs, fr, node):
         # frame: havoc what the callee may modify
         for m in c.modifies:
             v = env.get(m)
+            if isinstance(v, Ref) and not E.spec_mode:
+                for cid in E.reachable(v):
+                    if E.is_borrowed(Ref(cid)):
+                        E.frame_violation(Ref(cid), node, "call of %s (modifies %s)" % (short, m))
+                        break
             if isinstance(v, Ref):
                 cell = E.cell(v)
                 if cell[0] == "obj" and not cell[2]:
@@ -1178,18 +1232,24 @@ def comprehension(E, e, fr, kind):
             return auto
         raise Unsupported("comprehension %d of %s (line %d) has symbolic length and no invariant" % (
             k, fr.key, e.lineno))
-    if kind in ("dict", "set"):
-        raise Unsupported("symbolic dict/set comprehension")
-    ety = spec.get("elem")
-    if ety is None:
-        raise Unsupported("comprehension spec needs elem type")
-    acc = E.new_symlist(SV(z3.Empty(sort(TList(ety))), TList(ety)))
+    if kind == "set":
+        raise Unsupported("symbolic set comprehension")
+    if kind == "dict":
+        dty = spec.get("dict")
+        if dty is None:
+            raise Unsupported("dict comprehension spec needs dict type")
+        acc = E.alloc(("dict", L.empty_dict(E, dty)))
+    else:
+        ety = spec.get("elem")
+        if ety is None:
+            raise Unsupported("comprehension spec needs elem type")
+        acc = E.new_symlist(SV(z3.Empty(sort(TList(ety))), TList(ety)))
     if n is None:
         return comprehension_has(E, e, fr, g, d, k, spec, acc, restore)
     nt = z3_int(n)
     E.check_invs("inv_init[%d]" % k, spec, fr, {"it": 0, "_acc": acc, "n_iter": SV(nt, TInt)}, e.lineno)
     E.setcell(acc, E.havoc_cell("_acc", E.cell(acc)))
-    names, cells = E.modified_in([ast.Expr(e.elt)], fr)
+    names, cells = E.modified_in([ast.Expr(x) for x in ([e.key, e.value] if kind == "dict" else [e.elt])], fr)
     for nm in sorted(cells):
         v = fr.env.get(nm)
         if isinstance(v, Ref):
@@ -1202,8 +1262,11 @@ def comprehension(E, e, fr, kind):
             E.assume(f)
         E.assign(g.target, d.get(it), fr)
         if all(E.truth(E.eval(c, fr)) for c in g.ifs):
-            v = E.eval(e.elt, fr)
-            call_method(E, acc, "append", [v], {}, fr, e)
+            if kind == "dict":
+                set_subscript(E, acc, E.eval(e.key, fr), E.eval(e.value, fr), e, fr)
+            else:
+                v = E.eval(e.elt, fr)
+                call_method(E, acc, "append", [v], {}, fr, e)
         E.check_invs("inv_preserved[%d]" % k, spec, fr, {"it": SV(it.t + 1, TInt), "_acc": acc,
                                                          "n_iter": SV(nt, TInt)}, e.lineno)
         raise PathEnd()
